@@ -866,6 +866,11 @@ func (ctx *Context) evaluate() {
 				return
 			}
 
+		case typeStoreNameLocal:
+			// this.name = value: write the current scope, the counterpart of reading this.name
+			v := e.stack[e.top-1].Clone()
+			ctx.StoreNameLocal(code.Value.(string), v)
+
 		case typeJe, typeJeDup:
 			v := stackPop()
 			if v.AsBool() {
